@@ -1,0 +1,44 @@
+//go:build verif
+
+package protolazy
+
+// Contracts for the lazy index lookup (property C17): which byte ranges of the buffer belong to
+// a field decides what a lazily decoded field is decoded from, sized as and marshaled as.
+
+// lookupField on an index sorted by field number: the answer describes the maximal run of
+// adjacent entries for fieldNum that starts at the first such entry - a single entry is returned
+// through start/end/found, a run of two or more through multipleEntries, copied entry by entry,
+// and ending only at the end of the index or at an entry of another field; a field without
+// entries is reported not found.
+//
+// @ props C17
+// @ mode int
+// @ split
+// @ loop 1 invariant unchangedElems(index)
+// @ loop 1 invariant 0 <= loopIndex && loopIndex <= len(index) && forallIn(index, 0, loopIndex, func(k int, e IndexEntry) bool { return e.FieldNum < fieldNum })
+// @ loop 2 invariant 1 <= len(multiple) && freshSlice(multiple) && i <= len(index) && i-len(multiple) >= 0 && index[i-len(multiple)].FieldNum == fieldNum
+// @ loop 2 invariant unchangedElems(index)
+// @ loop 2 invariant forallIn(index, 0, i-len(multiple), func(k int, e IndexEntry) bool { return e.FieldNum < fieldNum })
+// @ loop 2 invariant forallIn(multiple, 0, len(multiple), func(k int, e IndexEntry) bool { return e.FieldNum == fieldNum && e.Start == index[i-len(multiple)+k].Start && e.End == index[i-len(multiple)+k].End })
+func contract_lookupField(indexp *[]IndexEntry, fieldNum uint32) (start, end uint32, found bool, multipleContiguous bool, multipleEntries []IndexEntry) {
+	requires(indexp != nil)
+	requires(forall(0, len(*indexp), func(a int) bool {
+		return forall(0, len(*indexp), func(b int) bool { return imp(a < b, (*indexp)[a].FieldNum <= (*indexp)[b].FieldNum) })
+	}))
+	// not found: no entry carries the number
+	ensures(imp(!found && multipleEntries == nil, forallIn(*indexp, 0, len(*indexp), func(k int, e IndexEntry) bool { return e.FieldNum != fieldNum })))
+	// single entry
+	ensures(imp(found, multipleEntries == nil && exists(0, len(*indexp), func(k int) bool {
+		return (*indexp)[k].FieldNum == fieldNum && (*indexp)[k].Start == start && (*indexp)[k].End == end &&
+			(k+1 == len(*indexp) || (*indexp)[k+1].FieldNum != fieldNum)
+	})))
+	// a run: complete up to the end of the index or an entry of another field
+	ensures(imp(multipleEntries != nil, !found && len(multipleEntries) >= 2 && exists(0, len(*indexp), func(k int) bool {
+		return k+len(multipleEntries) <= len(*indexp) &&
+			(k+len(multipleEntries) == len(*indexp) || (*indexp)[k+len(multipleEntries)].FieldNum != fieldNum) &&
+			forall(0, len(multipleEntries), func(j int) bool {
+				return multipleEntries[j].FieldNum == fieldNum && multipleEntries[j].Start == (*indexp)[k+j].Start && multipleEntries[j].End == (*indexp)[k+j].End
+			})
+	})))
+	return
+}
